@@ -524,6 +524,70 @@ def message_assembly(ctx, case):
         parse.argument_list = saved_al
 
 
+def splitter(ctx, case):
+    """argument_list_strs on an argument text whose CHARACTERS are symbolic: tokens joined by ', ', each a quoted string with
+    arbitrary payload (any printable character but " and backslash -- commas, brackets, parentheses, spaces included) or a bare
+    token; the split must give back exactly the tokens"""
+    from backends.libwayland_debug_output import parse
+    z = symx.z3() if ctx.symbolic else None
+    shape = case          # tuple of ('s', payload_len) / ('b', len)
+    toks = []
+    chars = []
+    for ti, (kind, n) in enumerate(shape):
+        if ti:
+            chars += [ord(','), ord(' ')]
+        start = len(chars)
+        if kind == 's':
+            chars.append(ord('"'))
+            for k in range(n):
+                c = ctx.fresh_int('t%d_c%d' % (ti, k), 32, 127)
+                ctx.assume(c != ord('"'))
+                ctx.assume(c != 92)
+                chars.append(c)
+            chars.append(ord('"'))
+        else:
+            prev = None
+            for k in range(n):
+                c = ctx.fresh_int('t%d_c%d' % (ti, k), 32, 127)
+                ctx.assume(c != ord('"'))
+                ctx.assume(c != 92)
+                if prev is not None:
+                    # a bare token never contains the separator
+                    ctx.assume(~((prev == ord(',')) & (c == ord(' '))) if ctx.symbolic else not (prev == ord(',') and c == ord(' ')))
+                prev = c
+                chars.append(c)
+        toks.append((start, len(chars)))
+    if ctx.symbolic:
+        text = symx.SWord([c if isinstance(c, symx.SInt) else c for c in chars], 'args')
+        # SWord wants SInt or int code points
+    else:
+        text = ''.join(chr(c) for c in chars)
+    got = parse.argument_list_strs(text)
+    ctx.check('as many pieces as arguments (nothing split, nothing merged)', len(got) == len(toks))
+    if len(got) == len(toks):
+        for (a, b), g in zip(toks, got):
+            if ctx.symbolic:
+                ok = isinstance(g, symx.SWord) and len(g.chars) == b - a and all((x is y) or (isinstance(x, int) and x == y) for x, y in zip(g.chars, chars[a:b]))
+            else:
+                ok = g == text[a:b]
+            ctx.check('each piece is exactly its argument', ok)
+
+
+def _splitter_shapes(tier):
+    import itertools
+    maxp = 3 if tier == 'quick' else 4
+    kinds = [('s', n) for n in range(0, maxp + 1)] + [('b', 1), ('b', 2)]
+    shapes = [()]
+    for k in (1, 2, 3):
+        for sh in itertools.product(kinds, repeat=k):
+            if sum(n for _, n in sh) > (5 if tier == 'quick' else 7):
+                continue
+            if k == 3 and tier == 'quick' and sum(1 for kk, _ in sh if kk == 's') > 2:
+                continue
+            shapes.append(tuple(sh))
+    return shapes
+
+
 def obligations(tier):
     from spec import printer_grammar as G
     obs = [
@@ -545,6 +609,9 @@ def obligations(tier):
            FUNCS_GLUE[0:1], 'other regex: no match / match at any position 1 <= s < 10^6; with and without connection tag; field texts opaque', message_assembly,
            cases=[(True, 'none'), (True, 'later'), (False, 'none'), (False, 'later')],
            stubs=['WlPatterns instance replaced by fakes behaving as M1/M2 establish', 'argument_list stubbed (its text argument is what is checked)']),
+        Ob('argument-splitter', 'symx', 'argument_list_strs on argument texts with symbolic characters: quoted strings with arbitrary payload (commas, brackets, parentheses, spaces) and bare tokens come back unsplit and unmerged',
+           FUNCS_GLUE[3:5], 'all token shapes of <= 3 arguments: strings with payload of 0..%d arbitrary characters, bare tokens of 1..2; every printable ASCII character except " and backslash' % (3 if tier == 'quick' else 4),
+           splitter, cases=_splitter_shapes(tier), stubs=['the argument text is an SWord (list of symbolic code points)']),
         Ob('generated-lines', 'smt', 'solver-generated printer lines (every ordered pair of argument productions, tricky string payloads) decoded end to end by the real parse.message vs the reference decoder',
            FUNCS_GLUE, 'one or two arguments per line; all productions; 5 variants x 2 directions', run_generated, cases=G.variants() if tier != 'quick' else G.variants()[:1] + G.variants()[4:],
            replay=replay_line),
